@@ -10,6 +10,7 @@ TRUSTED = [
     'hand-written model coq/Model/FifoStream.v (SingleLane(capacity+1) as an atomic bounded FIFO; thread pool = FIFO work queue + conc workers; futures Pending/Running/Done/Cancelled)',
     'trace validation: the real fifo_stream / Parmapper run under harness/detsched.py with virtual primitives injected into mpservice module globals; every logged run is replayed event by event in the model',
     'virtual primitives follow CPython semantics (harness/vprims.py; Future = stdlib source re-executed over them)',
+    __import__('harness.scen_lane', fromlist=['LANE_TRUSTED']).LANE_TRUSTED,
 ]
 ASSUME = [
     'code between two logged shared-object operations touches only thread-local state',
@@ -72,8 +73,10 @@ def nontrivial(r):
 
 
 def parts():
+    from harness import scen_lane
     return [core.Part('fifo', 'harness.scen_stream', 'fifo', 450, 8000, 'DriverFifo', ss.coq_fifo_case,
-                      oracle, nontrivial)]
+                      oracle, nontrivial),
+            scen_lane.part(250, 5000)]
 
 
 def check(tier, seed, replay=None):
